@@ -679,11 +679,14 @@ def _solve(job):
         asserts = base.assertions()
         r, s, backend, reason = z3.unknown, None, 'z3', None
         # short attempts first (a loaded machine must not push an easy query into a long wrong-strategy attempt), then the full budgets
-        for rung, budget in (('z3', min(5000, timeout_ms)), ('z3-nlsat', timeout_ms), ('z3', timeout_ms)):
-            if rung == 'z3':
+        # the last two rungs re-try with other random seeds: a query that is easy most of the time but occasionally wanders off
+        # (seen under full machine load) must not turn a proof into "undecided"
+        for rung, budget in (('z3', min(5000, timeout_ms)), ('z3-nlsat', timeout_ms), ('z3', timeout_ms),
+                             ('z3:seed+1', timeout_ms // 2), ('z3:seed+2', timeout_ms // 2)):
+            if rung.startswith('z3') and rung != 'z3-nlsat':
                 s = z3.Solver(ctx=ctx)
                 s.set('timeout', budget)
-                s.set('random_seed', seed)
+                s.set('random_seed', seed + (int(rung.split('+')[1]) * 7919 if '+' in rung else 0))
                 s.add(*asserts)
             else:
                 try:
